@@ -224,3 +224,14 @@ def av_term(v, atoms: dict | None = None, repl: dict | None = None, env: dict | 
     for k, r in (repl or {}).items():
         text = text.replace(k, r)
     return te.parse_term(text, env=env, atoms=atoms)
+
+
+def verdict(v, wants) -> str:
+    """'ok' (v is one of the accepted values), 'unknown' (v is partly not understood and could still be one of
+    them), 'bad' (v differs from every accepted value whatever its unknown parts are)."""
+    wants = list(wants)
+    if v in wants:
+        return "ok"
+    if _av.has_unk(v) and any(_av.compatible(v, w) for w in wants):
+        return "unknown"
+    return "bad"
